@@ -1,5 +1,6 @@
 // exec.cpp -- executes an explicit Program against the real library inside the simulated memory environment.
 #include "world.h"
+#include <map>
 
 #include <cmath>
 
@@ -112,6 +113,8 @@ void Exec::release_all() {
       ptr[i] = nullptr;
     }
   }
+  for (uint8_t* b : group_blocks) sim_release(b);
+  group_blocks.clear();
   if (!base) {
     set_cpu_mask(env.mask);
     if (env.protect_sources && (mods.size() || tabs.size())) sim_unfreeze_lib_blocks_since(lib_mark);
@@ -151,11 +154,40 @@ static bool needs_align16(const Program& P, const Slot& s) {
   return false;
 }
 
+void Exec::place_groups() {
+  std::map<int, std::vector<int>> groups;
+  for (size_t i = 0; i < P.slots.size(); ++i) {
+    const Slot& s = P.slots[i];
+    if (s.group >= 0 && s.type == T_ZV && s.gcols > 0 && (uint64_t)s.gidx < s.gcols && s.sl == s.gcols * s.n && !ptr[i]) groups[s.group].push_back((int)i);
+  }
+  for (auto& kv : groups) {
+    const Slot& s0 = P.slots[kv.second[0]];
+    uint64_t maxsize = 0;
+    bool ok = true;
+    for (int si : kv.second) {
+      const Slot& s = P.slots[si];
+      if (s.n != s0.n || s.gcols != s0.gcols) ok = false;
+      if (s.size > maxsize) maxsize = s.size;
+    }
+    if (!ok || !maxsize) continue;
+    const uint64_t total = maxsize * s0.gcols * s0.n * 8;
+    uint8_t* b = (uint8_t*)sim_alloc(total, env.calm ? SIM_PLACE_OFFSET : s0.place, env.calm ? 0 : s0.off8, env.calm ? SIM_FILL_ZERO : s0.fill, mix64(s0.dseed ^ 0x6207, (uint64_t)kv.first), kv.second[0]);
+    group_blocks.push_back(b);
+    for (int si : kv.second) {
+      ptr[si] = b + (uint64_t)P.slots[si].gidx * s0.n * 8;
+      bytes[si] = slot_bytes(si);
+      owned[si] = 3;
+      n_group_slots++;
+    }
+  }
+}
+
 uint8_t* Exec::ensure_slot(int si) {
   if (ptr[si]) return ptr[si];
   if (base && base->ptr[si]) {
     ptr[si] = base->ptr[si];
     bytes[si] = base->bytes[si];
+    if (P.slots[si].group >= 0) owned[si] = 3;  // a column inside a block shared with other tasks
     return ptr[si];
   }
   const Slot& s = P.slots[si];
@@ -426,7 +458,8 @@ void Exec::run_call(int idx) {
 
   // frame: what lies outside the declared output extent must not change
   uint64_t frame_before = 0;
-  const bool frame = env.check_frame && oi.nslots > 0 && oi.roles[0] != 'i';
+  // (a column whose neighbours are being written by other tasks has no quiescent frame to compare)
+  const bool frame = env.check_frame && oi.nslots > 0 && oi.roles[0] != 'i' && !(P.slots[c.s[0]].group >= 0 && owned[c.s[0]] == 3);
   if (frame) frame_before = hash_outside(P, c, 0, p[0], bytes[c.s[0]]);
 
   // C15 fresh-table twin: snapshot operands of *_simple calls
